@@ -138,9 +138,11 @@ class FullDecider(MaxDepthDecider):
         else:
             c_alternatives = []
         if not c_alternatives:
+            # No production extends the branch to the frontier: stay below it if possible (like the branch above, which
+            # targets max_depth - 1), and use the last level only when nothing else fits.
             c_alternatives = [
-                x for x in alternatives if self.grammar.get_distance_to_terminal(x) <= (self.max_depth - ctx.depth)
-            ]
+                x for x in alternatives if self.grammar.get_distance_to_terminal(x) <= (self.max_depth - ctx.depth - 1)
+            ] or [x for x in alternatives if self.grammar.get_distance_to_terminal(x) <= (self.max_depth - ctx.depth)]
         if not c_alternatives:
             raise SynthesisException(f"No alternative of {ty} fits the remaining depth ({self.max_depth - ctx.depth}).")
         return self.random.choice(c_alternatives)
